@@ -110,6 +110,10 @@ def main():
             for i, m in enumerate(holders):
                 xid += 1
                 frames, off = dhcplib.exchange(sb.client, m, 1, xid, options=[(55, bytes([1, 3, 51]))], wait=2.5)
+                if off is None:
+                    # a client retransmits; on a loaded machine the socket may not have been open after the fixed pause
+                    leg.count("discover_retransmissions", 1)
+                    frames, off = dhcplib.exchange(sb.client, m, 1, xid, options=[(55, bytes([1, 3, 51]))], wait=5.0)
                 leg.eval()
                 want = "10.77.0.%d" % (30 + i)
                 ok = off is not None and off["yiaddr"] == want
